@@ -438,7 +438,7 @@ theorem dead_core (a : Actor) (op : AOp) (hd : Dead a) (s : St) (hf : s.failed =
   | treeTaken =>
     refine ⟨s, by simp [Actor.stepCore, hnf, Actor.envOp, opTreeTaken], hf, ?_⟩
     simp only [Actor.stepCore, hnf, ↓reduceIte, Actor.envOp, opTreeTaken, hd.status, Status.rank]
-    simp only [show ¬ (6 ≤ 3) by omega, ↓reduceIte]
+    simp only [show ¬ (6 < 5) by omega, ↓reduceIte]
     exact ⟨by simp [hph], by simp [hd.status], by simp, by simp [hd.name], by simp [hd.groups], by simpa using hd.calls⟩
   | kidAdd c => exact ⟨s, by simp [Actor.stepCore, hnf, Actor.envOp], hf, by
       simp only [Actor.stepCore, hnf, ↓reduceIte, Actor.envOp]; exact ⟨by simp [hph], by simp [hd.status], by simp [hd.sup], by simp [hd.name], by simp [hd.groups], by simpa using hd.calls⟩⟩
